@@ -15,6 +15,7 @@ THEOREMS = [
     "c15_sem_held_exactly_while_running", "c15_slot_interval", "c15_no_panic",
     "c15_no_lost_wakeup", "c15_release_never_blocks", "c15_driver_stays_reachable",
     "c15_stop_returns_partial", "c15_later_stop_returns",
+    "c15_errored_submission_not_counted", "c15_errored_submission_keeps_count",
 ]
 # the unrestricted reading "every worker, whenever registered" is false of the
 # model (and of the code: summary.late_worker_replay): boundary of the
@@ -33,10 +34,12 @@ CODES = {
     8: ("semaphore-slot", "a limited task ran without holding its semaphore slot, or a slot stayed taken after its task was over or refused"),
     9: ("semaphore-slot-leaked", "a semaphore slot was still taken although NumTasks() was 0 and the task that took it had ended (returned or panicked)"),
     10: ("throttled-with-room", "RunLimitedAsyncTask returned ErrThrottled although fewer than cap calls could have held a slot"),
+    11: ("task-count-not-restored", "NumTasks() is negative or counts more calls than can be between runPrelude and runPostlude: a submission that was refused / returned an error (or is over) is still counted"),
+    12: ("stop-did-not-return", "every task and worker body had been told to return and Stop had been called, but the stopper did not report itself stopped / a Stop or Quiesce call did not return"),
 }
 
-RULE = ("controlled: random operation sequences (RunTask, RunAsyncTask, RunLimitedAsyncTask with wait true/false and "
-        "background / WithCancelOn* contexts on 2 semaphores, a chosen running body returns or PANICS (Stopper built with OnPanic), "
+RULE = ("controlled: random operation sequences (RunTask, RunAsyncTask and RunLimitedAsyncTask with wait true/false, each with the "
+        "background context or a WithCancelOn* context that is live, already cancelled, or cancelled while the call waits for its slot, on 2 semaphores, a chosen running body returns or PANICS (Stopper built with OnPanic), "
         "RunWorker, a worker returns or panics, "
         "AddCloser, WithCancelOnQuiesce/Stop, call of a returned cancel function, Stop, Quiesce; several Stop/Quiesce per "
         "sequence), total length <= 25 (thorough 40) including a closing tail that releases everything and calls Stop; "
